@@ -130,11 +130,16 @@ def check(case, ev):
             cl.append("converse_enumerated")
             ev.count("points_enumerated", len(pts))
             strict = 0 < len(feas) < len(pts)
+        elif max(abs(v) for lo_hi in colb for v in lo_hi) > 10 ** 6:
+            # 32-bit ranges: neither enumerable nor a sensible MILP instance (big-M ~ 1e9); only the => direction is judged
+            feas = []
+            strict = False
+            cl.append("converse_skipped_huge_box")
         else:
             objs = []
             for o in case["obj"]:
                 objs.append([o[j % len(o)] for j in range(len(ids))])
-            for j in range(min(len(ids), 12)):
+            for j in range(min(len(ids), 6)):
                 e = [0] * len(ids)
                 e[j] = 1
                 objs.append(e)
@@ -182,6 +187,7 @@ def parts(tier):
     return [Part("shapes%d" % i, enumerate_cases=(lambda t, i=i: shapes(i, 4)), check=check, time_quick=120.0) for i in range(4)] + [
         Part("small", strategy=lambda t: _with_tier(case_strategy(t, "small"), t), check=check, quick=(6, 200), thorough=(12, 1500)),
         Part("large", strategy=lambda t: _with_tier(case_strategy(t, "large"), t), check=check, quick=(2, 80), thorough=(4, 500)),
+        Part("huge", strategy=lambda t: _with_tier(case_strategy(t, "huge"), t), check=check, quick=(1, 80), thorough=(2, 500)),
         Part("negated_thresholds", strategy=lambda t: _with_tier(negation_case(t), t), check=check, quick=(2, 300), thorough=(4, 2500)),
         Part("boolean_negations", strategy=lambda t: _with_tier(boolean_case(t), t), check=check, quick=(4, 200), thorough=(8, 2000)),
     ]
